@@ -10,7 +10,8 @@ import ast as pyast
 IMPORTS = 'From Tranp Require Import Model.Peg Model.Lexer Properties.C12.'
 SYMS = ['a', 'b', 'c', 'item', 'expr2', 'x_1', 'entry', 'tail']
 TERMS = ['"x"', '"+"', '"if"', '"("', '")"', '"\\n"', '","', '"=="']
-REGEXPS = ['/[a-z]+/', '/\\d+/', '/[*+?]/', '/a|b/', "/\\'[^\\']*\\'/", '/[\\/]x/', '/\\w\\d*/']
+REGEXPS = ['/[a-z]+/', '/\\d+/', '/[*+?]/', '/a|b/', "/\\'[^\\']*\\'/", '/[\\/]x/', '/\\w\\d*/',
+           '/[.]|\\//', '/\\/\\*x\\*\\//', '/\\/+/', '/"[^"]*"/']     # bodies that begin / end with an escaped delimiter or hold the other quote
 
 
 def load_real():
